@@ -274,12 +274,27 @@ func c13R2(c *Ctx) {
 		if !ok {
 			return
 		}
-		pc, _ := callOf(s.X)
+		// the value sent is what popBuffer returned: directly, or through the loop variable of
+		// `for buf := pop(); buf != nil; buf = pop()` (a phi of two pops of the same buffer)
+		var pc *ssa.Call
+		src := ""
+		for _, l := range origins(s.X, originOpts{}) {
+			lc, _ := callOf(l.V)
+			if lc == nil || calleeID(&lc.Call) != "(*trzsz.trzszBuffer).popBuffer" {
+				pc = nil
+				break
+			}
+			_, lsrc, _ := fieldOf(lc.Call.Args[0])
+			if pc != nil && lsrc != src {
+				pc = nil
+				break
+			}
+			pc, src = lc, lsrc
+		}
 		if pc == nil {
 			c.bad("flush/send-value", c.ipos(s), "flush sends something that is not a popped chunk")
 			return
 		}
-		_, src, _ := fieldOf(pc.Call.Args[0])
 		_, dst, _ := fieldOf(s.Chan)
 		want := map[string]map[string]bool{"stdinBuffer": {"osStdinChan": true, "clientBufChan": true}, "stdoutBuffer": {"osStdoutChan": true, "bypassTmuxChan": true, "serverBufChan": true}}
 		c.check(want[src][dst], "flush/"+src+"->"+dst, c.ipos(s), "parked chunk delivered to its own direction", "parked chunk delivered to the wrong side")
